@@ -9,7 +9,11 @@ Implementation functions driven (real code from /repo/src):
   segment_numbers, number_of_segments, get_segment_description,
   segmented_property_categories, segmented_property_types,
   Segmentation._check_and_cast_pixel_array (+ _combine_segments) called directly,
-  Segmentation.from_dataset on objects whose frames are not unique per (plane, segment).
+  Segmentation.from_dataset on objects whose frames are not unique per (plane, segment),
+  and on objects whose per-frame DimensionIndexValues were re-encoded the way other encoders write them
+  (kind 'foreign'); the same object obtained in memory / segread / segread(lazy_frame_retrieval=True) /
+  from_dataset, with the decoded pixel_array cache warmed or not, whole HISTORIES of reads on one object with
+  the returned arrays overwritten by the caller in between (kind 'history').
 Model: coq/theories/C02_Model.v; theorems: C02_Props.v.
 
 A case = one stored segmentation (synthetic, built through the real
@@ -43,6 +47,8 @@ ORACLE_PREMISES = [
     'canonicalised to exact fractions by the harness)',
     'numpy type promotion inside the combine loop (uint8 frame * dtype scalar, np.maximum) does not lose values '
     'that fit the output dtype',
+    'reads are functions of the stored object (no aliasing between the cached pixel array, the frames handed to the '
+    'combine loop and the arrays returned to the caller): outside the model, exercised by the history cases',
 ]
 MODELLED = ('seg/sop.py: _get_pixels_by_seg_frame (dtype choice and capacity check, LABELMAP need_remap / '
             'intermediate dtype / remap table / one-hot, BINARY+FRACTIONAL combine loop with overlap test and maximum, '
@@ -51,14 +57,20 @@ MODELLED = ('seg/sop.py: _get_pixels_by_seg_frame (dtype choice and capacity che
             'segment_numbers, number_of_segments, get_segment_numbers, get_tracking_ids, get_segment_description, '
             'segmented_property_categories / _types; _check_and_cast_pixel_array (integer input, LABELMAP) with '
             '_combine_segments; the (plane, segment) uniqueness guard on objects re-read with from_dataset; '
-            'image.py: _prepare_channel_tables and the stack join (as comprehension), _get_pixels_by_frame (as gather)')
+            'image.py: _prepare_channel_tables and the stack join (as comprehension), _get_pixels_by_frame (as gather), '
+            'the index-column / value-column choice of _normalize_dimension_queries with the use_indices flags each '
+            'entry point passes to _iterate_indices_for_stack (objects with foreign DimensionIndexValues)')
 STRATA = ['instance', 'frame', 'dimidx', 'volume', 'tpm', 'subsets', 'malformed', 'fixture', 'search', 'tracking',
-          'ctor', 'describe', 'dupframe']
+          'ctor', 'describe', 'dupframe', 'foreign', 'history']
 NOT_EXECUTED = ['palette colour / ICC output of LABELMAP (apply_palette_color_lut)']
 RULE = ('objects: BINARY/FRACTIONAL/LABELMAP, 1-4 segments (LABELMAP also sparse numbers from '
         '{1,2,5,7,200,255,256,300,1000,2048,65535}), 1-5 planes (CT series) or 1-9 tiles (tiled slide image), frames of '
         '<= 9 pixels, empty planes, omit_empty_frames on/off, overlapping or disjoint masks, true fractional values, '
-        'in-memory or file round trip; reads: random ordered subsets x 16 option combinations x 13 dtypes x repeated / '
+        'in-memory / segread / lazy segread / from_dataset, pixel_array cache warmed or not; foreign: per-frame '
+        'DimensionIndexValues re-encoded (segment index ranked over the occurring numbers / permuted / shifted, plane '
+        'index ranked / with gaps / reversed) with described-but-empty segments, all entry points; history: 8-12 reads '
+        'of mixed entry points on ONE object, cache viewed at the start or mid-way, results overwritten by the caller, '
+        'stored state re-read at the end; reads: random ordered subsets x 16 option combinations x 13 dtypes x repeated / '
         'permuted / omitted / unknown planes; subsets: ALL non-empty ordered subsets of the segment numbers; '
         'malformed: every guard violated; fixtures: shipped seg_image_*.dcm.  non-trivial = at least one non-zero '
         'output value or a refusal; distinct by case hash')
@@ -83,7 +95,16 @@ FIXTURES = ['seg_image_ct_binary.dcm', 'seg_image_ct_binary_overlap.dcm', 'seg_i
 # ----------------------------------------------------------------------------
 # generators
 # ----------------------------------------------------------------------------
-def gen_obj(rng, src, ty=None, segs=None):
+OPEN_MODES = ['memory', 'file', 'lazy', 'dataset']
+
+
+def open_mode(o):
+    """how the object handed to the reads is obtained: as constructed ('memory'), segread of the written file
+    ('file'), segread(lazy_frame_retrieval=True) ('lazy'), Segmentation.from_dataset(pydicom.dcmread()) ('dataset')"""
+    return o.get('open') or ('file' if o.get('file') else 'memory')
+
+
+def gen_obj(rng, src, ty=None, segs=None, true_frac=None, blank=None):
     ty = ty or rng.choice(['BINARY', 'FRACTIONAL', 'LABELMAP'])
     if segs is None:
         if ty == 'LABELMAP' and rng.random() < 0.6:
@@ -111,7 +132,9 @@ def gen_obj(rng, src, ty=None, segs=None):
                 valid.append([(a * th + r < R) and (b * tw + c < C) for r in range(th) for c in range(tw)])
     npix = o['rows'] * o['cols']
     o['maxfrac'] = rng.choice([1, 2, 100, 255, 128]) if ty == 'FRACTIONAL' else 1
-    true_frac = ty == 'FRACTIONAL' and o['maxfrac'] > 1 and rng.random() < 0.5
+    if true_frac is None:
+        true_frac = rng.random() < 0.5
+    true_frac = ty == 'FRACTIONAL' and o['maxfrac'] > 1 and true_frac
     overlap = ty != 'LABELMAP' and not true_frac and rng.random() < 0.4
     pix = [[[0] * npix for _ in range(S)] for _ in range(o['P'])]
     all_empty = rng.random() < 0.04
@@ -131,12 +154,20 @@ def gen_obj(rng, src, ty=None, segs=None):
                 owners = rng.sample(range(S), rng.randint(1, S))
             for k in owners:
                 pix[p][k][q] = rng.randint(1, o['maxfrac']) if true_frac else o['maxfrac']
+    if blank is None:
+        # described segments that are empty everywhere (no stored frame at all when empty frames are omitted)
+        blank = [k for k in range(S) if S > 1 and rng.random() < 0.1]
+    for p in range(o['P']):
+        for k in blank:
+            pix[p][k] = [0] * npix
     o['pix'] = pix
     o['omit'] = rng.random() < 0.6
     o['layout'] = rng.choice(['labelmap', 'stacked']) if ty == 'LABELMAP' else 'stacked'
     if ty == 'BINARY' and not overlap and rng.random() < 0.3:
         o['layout'] = 'labelmap'
-    o['file'] = rng.random() < 0.25
+    o['open'] = rng.choice(['memory'] * 5 + ['file', 'file', 'lazy', 'dataset'])
+    # the caller has looked at seg.pixel_array before reading (decoded frames are cached from then on)
+    o['warm'] = rng.random() < 0.2
     return o
 
 
@@ -429,6 +460,10 @@ def gen_cases(rng, tier):
         cases.append(gen_dupframe(rng))
     for i in range({'quick': 16, 'thorough': 200, 'search': 60}[tier]):
         cases.append(gen_ctor(rng, i))
+    for i in range({'quick': 16, 'thorough': 160, 'search': 60}[tier]):
+        cases.append(gen_foreign(rng, i))
+    for i in range({'quick': 16, 'thorough': 160, 'search': 60}[tier]):
+        cases.append(gen_history(rng, i))
     # the model is evaluated in shards of consecutive cases: put the cheap kinds first so that the expensive
     # read cases are spread over the shards (stable sort, the draws above are unaffected)
     light = ('search', 'tracking', 'describe', 'ctor', 'dupframe')
@@ -441,7 +476,7 @@ def gen_dupframe(rng):
     src = rng.choice(['ct', 'sm'])
     while True:
         o = gen_obj(rng, src)
-        o['omit'], o['file'] = False, rng.random() < 0.3
+        o['omit'], o['open'] = False, rng.choice(['memory', 'memory', 'file'])
         o.pop('dup', None)
         fr = predicted_frames(o)
         if len(fr) >= 2:
@@ -454,6 +489,161 @@ def gen_dupframe(rng):
         e = rng.choice(entries)
         reads.append(gen_read(rng, o, e) if j % 2 == 0 else gen_malformed(rng, o, e))
     return {'kind': 'dupframe', 'obj': o, 'reads': reads}
+
+
+def gen_foreign(rng, i):
+    """an object as another encoder would write it: the per-frame DimensionIndexValues are re-encoded (the index
+    along the segment dimension is NOT the segment number, the plane index has gaps / the other direction) and the
+    object is parsed again.  Segment NUMBERS must still decide what is returned, on every entry point."""
+    src = rng.choice(['ct', 'sm'])
+    ty = ['BINARY', 'FRACTIONAL', 'LABELMAP', 'BINARY'][i % 4]
+    enc = {'plane': rng.choice(['rank', 'gap', 'rev'])}
+    if ty == 'LABELMAP':
+        o = gen_obj(rng, src, ty=ty)             # no segment dimension: only the plane index is re-encoded
+        enc['seg'] = 'same'
+    else:
+        S = rng.randint(2, 4)
+        blank = sorted(rng.sample(range(S), rng.randint(1, S - 1))) if i % 2 == 0 else []
+        o = gen_obj(rng, src, ty=ty, segs=list(range(1, S + 1)), blank=blank)
+        if blank:
+            # described segments without any frame: index values ranked over the numbers that occur
+            o['omit'] = True
+            enc['seg'] = 'rank'
+        else:
+            enc['seg'] = rng.choice(['perm', 'shift', 'perm', 'same'])
+        if enc['seg'] == 'perm':
+            perm = list(range(1, S + 1))
+            while perm == list(range(1, S + 1)):
+                rng.shuffle(perm)
+            enc['segperm'] = perm
+    o['dimenc'] = enc
+    o['open'] = rng.choice(OPEN_MODES)
+    entries = ['dimidx', 'dimidx', 'instance', 'volume'] if src == 'ct' else ['dimidx', 'dimidx', 'frame', 'tpm', 'volume']
+    reads = []
+    for j in range(6):
+        e = rng.choice(entries) if j else 'dimidx'
+        r = gen_read(rng, o, e) if j != 5 else gen_malformed(rng, o, e)
+        r.pop('default_req', None)
+        reads.append(r)
+    return {'kind': 'foreign', 'obj': o, 'reads': reads}
+
+
+def gen_history(rng, i):
+    """8-12 reads of mixed entry points on ONE object: the answer to a read must not depend on what was asked
+    before, on whether the caller has looked at seg.pixel_array (decoded frames cached) or on what the caller did
+    to the arrays returned earlier; afterwards the object must still hold the stored values."""
+    src = rng.choice(['ct', 'sm'])
+    ty = ['FRACTIONAL', 'BINARY', 'FRACTIONAL', 'LABELMAP'][i % 4]
+    o = gen_obj(rng, src, ty=ty, true_frac=(False if i % 4 == 0 else None))
+    if i % 4 == 0 and o['maxfrac'] == 1:
+        o['maxfrac'] = rng.choice([255, 100, 2])
+        o['pix'] = [[[(o['maxfrac'] if v else 0) for v in row] for row in pl] for pl in o['pix']]
+    o['open'] = OPEN_MODES[(i // 4) % 4]
+    o['warm'] = i % 3 != 2
+    entries = ['instance', 'instance', 'dimidx', 'volume'] if src == 'ct' else ['frame', 'frame', 'tpm', 'dimidx', 'volume']
+    reads = []
+    for j in range(rng.randint(6, 8)):
+        r = gen_read(rng, o, rng.choice(entries))
+        if rng.random() < 0.15:
+            r['touch'] = True           # the caller views seg.pixel_array just before this read
+        if rng.random() < 0.5:
+            r['scribble'] = True        # the caller overwrites the returned array afterwards
+        reads.append(r)
+    for j in range(rng.randint(2, 4)):  # the same question again later: same answer
+        reads.append(dict(rng.choice(reads)))
+    return {'kind': 'history', 'obj': o, 'reads': reads, 'observe_state': True}
+
+
+# ----------------------------------------------------------------------------
+# DimensionIndexValues as another encoder writes them (o['dimenc'])
+# ----------------------------------------------------------------------------
+def plane_coords(o, p):
+    """coordinates of plane p along the plane dimensions addressed by the reads: CT (plane,), tiled (column, row)"""
+    if o['src'] == 'ct':
+        return (p,)
+    nc = -(-o['C'] // o['cols'])
+    a, b = divmod(p - 1, nc)
+    return (b, a)
+
+
+def dim_prediction(o):
+    """({plane: tuple of index values along the plane dimensions}, {segment number: index value}) of the stored
+    frames, as re-encoded according to o['dimenc']"""
+    enc = o['dimenc']
+    frames = predicted_frames(o)
+    planes = sorted({f[0] for f in frames})
+    ndim = len(plane_coords(o, planes[0]))
+    tabs = []
+    for d in range(ndim):
+        vals = sorted({plane_coords(o, p)[d] for p in planes})
+        n = len(vals)
+        t = {}
+        for rk, v in enumerate(vals, 1):
+            t[v] = {'rank': rk, 'gap': 2 * rk + 1, 'rev': n + 1 - rk}[enc['plane']]
+        tabs.append(t)
+    ptab = {p: tuple(tabs[d][plane_coords(o, p)[d]] for d in range(ndim)) for p in planes}
+    occurring = sorted({f[1] for f in frames})
+    stab = {}
+    for rk, sn in enumerate(occurring, 1):
+        if sn == 0:
+            stab[sn] = 0                      # LABELMAP: no segment dimension
+        elif enc['seg'] == 'rank':
+            stab[sn] = rk
+        elif enc['seg'] == 'shift':
+            stab[sn] = sn + 1
+        elif enc['seg'] == 'perm':
+            stab[sn] = enc['segperm'][o['segs'].index(sn)]
+        else:
+            stab[sn] = sn
+    return ptab, stab
+
+
+def plane_tags(o):
+    from pydicom.tag import Tag
+    if o['src'] == 'ct':
+        return [int(Tag('ImagePositionPatient'))]
+    return [int(Tag('ColumnPositionInTotalImagePixelMatrix')), int(Tag('RowPositionInTotalImagePixelMatrix'))]
+
+
+def reencode_dimensions(ds, o, uids):
+    from pydicom.tag import Tag
+    ptab, stab = dim_prediction(o)
+    ptr = [int(it.DimensionIndexPointer) for it in ds.DimensionIndexSequence]
+    seg_tag = int(Tag('ReferencedSegmentNumber'))
+    for pf in ds.PerFrameFunctionalGroupsSequence:
+        src_ = pf.DerivationImageSequence[0].SourceImageSequence[0]
+        key = uids.index(src_.ReferencedSOPInstanceUID) + 1 if o['src'] == 'ct' else int(src_.ReferencedFrameNumber)
+        vals = pf.FrameContentSequence[0].DimensionIndexValues
+        vals = [int(vals)] if isinstance(vals, int) else [int(v) for v in vals]
+        for t, v in zip(plane_tags(o), ptab[key]):
+            vals[ptr.index(t)] = v
+        if seg_tag in ptr:
+            sn = int(pf.SegmentIdentificationSequence[0].ReferencedSegmentNumber)
+            vals[ptr.index(seg_tag)] = stab[sn]
+        pf.FrameContentSequence[0].DimensionIndexValues = vals
+
+
+def dim_rows(o, planes, table, nptr):
+    """dimension index value rows that address the given planes (table: plane -> index values of the stored
+    frames); planes without stored frame get values that match no frame"""
+    rows = []
+    for p in planes:
+        if p in table:
+            rows.append(list(table[p]))
+        elif o['src'] == 'sm' and 1 <= p <= o['P']:
+            nc = -(-o['C'] // o['cols'])
+            a, b = divmod(p - 1, nc)
+            ci = [v[0] for k, v in table.items() if (k - 1) % nc == b]
+            ri = [v[1] for k, v in table.items() if (k - 1) // nc == a]
+            rows.append([ci[0] if ci else 90 + b, ri[0] if ri else 90 + a])
+        else:
+            rows.append([70 + p] * nptr)
+    return rows
+
+
+def dim_code(row):
+    """one Z per row of plane index values (what the model's x_kix / EDimIdx keys hold)"""
+    return row[0] if len(row) == 1 else row[0] * 1000 + row[1]
 
 
 def gen_describe(rng):
@@ -622,19 +812,42 @@ def build(o):
         i, j = where[tuple(o['dup']['from'])], where[tuple(o['dup']['to'])]
         ds.PerFrameFunctionalGroupsSequence[j] = copy.deepcopy(ds.PerFrameFunctionalGroupsSequence[i])
         seg = hd.seg.Segmentation.from_dataset(ds, copy=False)
-    if o.get('file'):
-        seg = synth.write_read(seg, hd.seg.segread)
-    return seg, sources
+    if o.get('dimenc'):
+        import io
+        import pydicom
+        b = io.BytesIO()
+        seg.save_as(b)
+        ds = pydicom.dcmread(io.BytesIO(b.getvalue()))
+        reencode_dimensions(ds, o, [s_.SOPInstanceUID for s_ in sources])
+        seg = hd.seg.Segmentation.from_dataset(ds, copy=False)
+    mode = open_mode(o)
+    raw = None
+    if mode != 'memory':
+        import io
+        import pydicom
+        b = io.BytesIO()
+        seg.save_as(b)
+        raw = b.getvalue()
+        if mode == 'file':
+            seg = hd.seg.segread(raw)
+        elif mode == 'lazy':
+            seg = hd.seg.segread(io.BytesIO(raw), lazy_frame_retrieval=True)
+        else:
+            seg = hd.seg.Segmentation.from_dataset(pydicom.dcmread(io.BytesIO(raw)))
+    return seg, sources, raw
 
 
 def stored_abstract(seg, o, sources):
-    """Abstract form of the object actually built, decoded with pydicom only."""
+    """Abstract form of the object actually built (or of the bytes it was read from), decoded with pydicom only."""
     import io
     import numpy as np
     import pydicom
-    b = io.BytesIO()
-    seg.save_as(b)
-    ds = pydicom.dcmread(io.BytesIO(b.getvalue()))
+    if isinstance(seg, bytes):
+        ds = pydicom.dcmread(io.BytesIO(seg))
+    else:
+        b = io.BytesIO()
+        seg.save_as(b)
+        ds = pydicom.dcmread(io.BytesIO(b.getvalue()))
     arr = ds.pixel_array
     if arr.ndim == 2:
         arr = arr[None]
@@ -648,18 +861,38 @@ def stored_abstract(seg, o, sources):
     return sorted(frames), int(ds.BitsStored), int(ds.get('PixelPaddingValue', 0))
 
 
+def stored_state(seg, o, sources):
+    """[stored pixel values of every predicted frame as the object holds them NOW (seg.pixel_array: the cached
+    decoded array if there is one, else decoded from PixelData), PixelData still decodes to the prediction]"""
+    import numpy as np
+    arr = np.asarray(seg.pixel_array)
+    if int(seg.number_of_frames) == 1:
+        arr = arr[None]
+    uids = [s.SOPInstanceUID for s in sources]
+    found = {}
+    for i, pf in enumerate(seg.PerFrameFunctionalGroupsSequence):
+        src = pf.DerivationImageSequence[0].SourceImageSequence[0]
+        key = uids.index(src.ReferencedSOPInstanceUID) + 1 if o['src'] == 'ct' else int(src.ReferencedFrameNumber)
+        sn = 0 if o['ty'] == 'LABELMAP' else int(pf.SegmentIdentificationSequence[0].ReferencedSegmentNumber)
+        found[(key, sn)] = [int(v) for v in arr[i].ravel()]
+    state = [found.get((p, sn), []) for (p, sn, px) in predicted_frames(o)]
+    pd_ok = True
+    if open_mode(o) != 'lazy':          # a lazily read object holds no PixelData (frames stay in the read-only file)
+        pd_ok = stored_abstract(seg, o, sources)[0] == sorted(predicted_frames(o))
+    return [state, pd_ok]
+
+
 def _dim_translation(seg, o):
     """plane number -> tuple of dimension index values (from the stored frames),
     and the pointers used."""
     from pydicom.tag import Tag
     ptr_tags = [int(it.DimensionIndexPointer) for it in seg.DimensionIndexSequence]
-    if o['src'] == 'ct':
-        want = [int(Tag('ImagePositionPatient'))]
-    else:
-        want = [int(Tag('ColumnPositionInTotalImagePixelMatrix')), int(Tag('RowPositionInTotalImagePixelMatrix'))]
+    want = plane_tags(o)
     pos = [ptr_tags.index(t) for t in want]
     uids = None
     table = {}
+    seg_tag = int(Tag('ReferencedSegmentNumber'))
+    segix = {}
     for pf in seg.PerFrameFunctionalGroupsSequence:
         src = pf.DerivationImageSequence[0].SourceImageSequence[0]
         if o['src'] == 'ct':
@@ -671,6 +904,10 @@ def _dim_translation(seg, o):
         div = pf.FrameContentSequence[0].DimensionIndexValues
         div = [div] if isinstance(div, int) else list(div)
         table[key] = tuple(int(div[k]) for k in pos)
+        if seg_tag in ptr_tags:
+            sn = int(pf.SegmentIdentificationSequence[0].ReferencedSegmentNumber)
+            segix.setdefault(sn, set()).add(int(div[ptr_tags.index(seg_tag)]))
+    o['_segix'] = segix
     return want, table
 
 
@@ -691,18 +928,7 @@ def do_read(seg, o, sources, r, dimtab):
                                               assert_missing_frames_are_empty=r['am'], **kw)
     if e == 'dimidx':
         want, table = dimtab
-        rows = []
-        for p in r['planes']:
-            if p in table:
-                rows.append(list(table[p]))
-            elif o['src'] == 'sm' and 1 <= p <= o['P']:
-                nc = -(-o['C'] // o['cols'])
-                a, b = divmod(p - 1, nc)
-                ci = [v[0] for k, v in table.items() if (k - 1) % nc == b]
-                ri = [v[1] for k, v in table.items() if (k - 1) // nc == a]
-                rows.append([ci[0] if ci else 90 + b, ri[0] if ri else 90 + a])
-            else:
-                rows.append([70 + p] * len(want))
+        rows = dim_rows(o, r['planes'], table, len(want))
         ptrs = want if (o['src'] == 'sm' or len(r['planes']) % 2 == 0) else None
         return seg.get_pixels_by_dimension_index_values(rows, dimension_index_pointers=ptrs,
                                                         assert_missing_frames_are_empty=r['am'], **kw)
@@ -802,22 +1028,41 @@ def run_impl(c):
                 return seg.get_pixels_by_source_instance([fa['uids'][p - 1] for p in r['planes']], **kw)
             outs.append(canon(catch(f), r, fa['npix'], fa['maxfrac'], fa['ty']))
         return outs
+    import numpy as np
     o = c['obj']
-    seg, sources = build(o)
-    got = stored_abstract(seg, o, sources)
+    seg, sources, raw = build(o)
+    got = stored_abstract(raw if raw is not None else seg, o, sources)
     want = (sorted(predicted_frames(o)), 8 if o['ty'] == 'FRACTIONAL' else 1 if o['ty'] == 'BINARY'
             else (8 if max(o['segs']) < 256 else 16), 0)
     if got != want:
         return ['stored-object-differs-from-prediction', [list(x) for x in got[0]][:6], [list(x) for x in want[0]][:6],
                 got[1:], want[1:]]
     o2 = dict(o, _uids=[s.SOPInstanceUID for s in sources])
-    dimtab = _dim_translation(seg, o2) if any(r['entry'] == 'dimidx' for r in c['reads']) else None
+    dimtab = None
+    if o.get('dimenc') or any(r['entry'] == 'dimidx' for r in c['reads']):
+        dimtab = _dim_translation(seg, o2)
+    if o.get('dimenc'):
+        # the object really carries the re-encoded index values
+        ptab, stab = dim_prediction(o)
+        got_s = {sn: sorted(v) for sn, v in o2['_segix'].items()}
+        want_s = {sn: [v] for sn, v in stab.items() if sn != 0}
+        if dimtab[1] != ptab or got_s != want_s:
+            return ['stored-object-differs-from-prediction', sorted(dimtab[1].items()), sorted(ptab.items()),
+                    sorted(got_s.items()), sorted(want_s.items())]
+    if o.get('warm'):
+        seg.pixel_array             # the caller looks at the decoded pixel array: it is cached from now on
     outs = []
     tiler = (lambda a: cut_tiles(a, o)) if o['src'] == 'sm' else None
     for r in c['reads']:
+        if r.get('touch'):
+            seg.pixel_array
         res = catch(do_read, seg, o, sources, r, dimtab)
         use_tiler = tiler if r['entry'] in ('tpm', 'volume') else None
         outs.append(canon(res, r, o['rows'] * o['cols'], o['maxfrac'], o['ty'], use_tiler))
+        if r.get('scribble') and isinstance(res, np.ndarray) and res.flags.writeable:
+            res[...] = 3            # the result belongs to the caller: whatever he does to it concerns nobody else
+    if c.get('observe_state'):
+        outs.append(stored_state(seg, o, sources))
     return outs
 
 
@@ -960,13 +1205,18 @@ def stored_term(ty, segs, bits, maxfrac, npix, bg, frames, known):
     return f'(mkStored {ty} {zl(segs)} {bits} {maxfrac} {npix} {bg} [{fr}] {zl(known)})'
 
 
-def read_term(r, tiled_volume=False):
+def read_term(r, tiled_volume=False, ix=False):
     e = ENTRY_COQ[r['entry']]
     if tiled_volume and r['entry'] == 'volume':
         e = 'ETpm'           # get_volume of a tiled image delegates to get_total_pixel_matrix
     dt = 'None' if r['dtype'] is None else f"(Some {DT_COQ[r['dtype']]})"
     head = 'run_read_default' if r.get('default_req') else 'run_read'
     rq = '' if r.get('default_req') else zl(r['req']) + ' '
+    if ix:
+        assert not r.get('default_req')
+        head, rq = 'run_read_ix', zl(r['req']) + ' '
+        return (f"{head} {e} {_bool(r['am'])} st xs {zl(r['planes'])} {rq}"
+                f"(mkOpts {_bool(r['combine'])} {_bool(r['relabel'])} {_bool(r['skip'])} {_bool(r['rescale'])} {dt})")
     return (f"{head} {e} {_bool(r['am'])} st {zl(r['planes'])} {rq}"
             f"(mkOpts {_bool(r['combine'])} {_bool(r['relabel'])} {_bool(r['skip'])} {_bool(r['rescale'])} {dt})")
 
@@ -1020,9 +1270,26 @@ def coq_term(c):
     o = c['obj']
     bits = 8 if o['ty'] == 'FRACTIONAL' else 1 if o['ty'] == 'BINARY' else (8 if max(o['segs']) < 256 else 16)
     known = list(range(1, o['P'] + 1)) if o['src'] == 'ct' else []
-    st = stored_term(o['ty'], o['segs'], bits, o['maxfrac'], o['rows'] * o['cols'], 0, predicted_frames(o), known)
-    return ('(let st := ' + st + ' in VL [' +
-            '; '.join(read_term(r, tiled_volume=(o['src'] == 'sm')) for r in c['reads']) + '])')
+    frames = predicted_frames(o)
+    tiled = o['src'] == 'sm'
+    if o.get('dimenc'):
+        # FrameLUT rows with their index columns; reads by dimension index values are keyed by index values
+        ptab, stab = dim_prediction(o)
+        st = stored_term(o['ty'], o['segs'], bits, o['maxfrac'], o['rows'] * o['cols'], 0, [], known)
+        xs = '; '.join(f'mkIx (mkFrame {zlit(k)} {zlit(s)} {zl(px)}) {zlit(dim_code(ptab[k]))} {zlit(stab[s])}'
+                       for k, s, px in frames)
+        terms = []
+        for r in c['reads']:
+            rr = r
+            if r['entry'] == 'dimidx':
+                rr = dict(r, planes=[dim_code(row) for row in dim_rows(o, r['planes'], ptab, len(plane_tags(o)))])
+            terms.append(read_term(rr, tiled_volume=tiled, ix=True))
+        return '(let st := ' + st + ' in let xs := [' + xs + '] in VL [' + '; '.join(terms) + '])'
+    st = stored_term(o['ty'], o['segs'], bits, o['maxfrac'], o['rows'] * o['cols'], 0, frames, known)
+    terms = [read_term(r, tiled_volume=tiled) for r in c['reads']]
+    if c.get('observe_state'):
+        terms.append('VL [run_stored_state st; VB true]')
+    return '(let st := ' + st + ' in VL [' + '; '.join(terms) + '])'
 
 
 # ----------------------------------------------------------------------------
@@ -1198,12 +1465,32 @@ def oracle(c, out):
                 return (f'read {i} ({r["entry"]}) of an object in which two frames claim the same (plane, segment) '
                         f'{c["obj"]["dup"]} was answered instead of refused')
         return None
+    state_msg = None
+    if c.get('observe_state'):
+        if len(out) != len(c['reads']) + 1:
+            return 'no stored-state observation'
+        state, pd_ok = out[-1]
+        for (p, sn, px), got in zip(predicted_frames(o), state):
+            if list(got) != list(px) and not state_msg:
+                state_msg = (f'after the reads the object holds {got} for the frame of plane {p}, segment {sn}; it '
+                             f'was stored as {px} (reading changed the object)')
+        if not pd_ok and not state_msg:
+            state_msg = 'after the reads the PixelData of the object no longer decodes to the stored values'
+    hist = ''
+    if k == 'history':
+        hist = f" [object {open_mode(c['obj'])}, pixel_array viewed first: {bool(c['obj'].get('warm'))}]"
     for i, (r, res) in enumerate(zip(c['reads'], out)):
+        if hist:
+            before = [('combined' if q['combine'] else 'stacked') + (' +overwritten' if q.get('scribble') else '')
+                      for q in c['reads'][:i]]
+            hist_i = hist + f' after {before}'
         rr = dict(r, _out=res, _strict_volume=(k != 'fixture' and c['obj']['src'] == 'ct'))
         m = check_read(rr, ty, segs, maxfrac, npix, mask, known, max_ref, present, label=f'read {i} ({r["entry"]}): ')
         if m:
-            return m
-    return None
+            if k == 'foreign':
+                m += f" [DimensionIndexValues re-encoded: {c['obj']['dimenc']}]"
+            return m + (hist_i if hist else '')
+    return state_msg
 
 
 def oracle_search(c, out):
@@ -1245,13 +1532,16 @@ def nontrivial(c, out):
         if isinstance(x, list):
             return any(nz(y) for y in x)
         return x != 0
-    return any(isinstance(r, Err) or nz(r[1]) for r in out)
+    return any(isinstance(r, Err) or nz(r[1]) for r in out[:len(c['reads'])])
 
 
 def shrink(c):
     if 'reads' in c and len(c['reads']) > 1:
         for i in range(len(c['reads'])):
             yield dict(c, reads=[c['reads'][i]])
+    if 'reads' in c and len(c['reads']) > 2:
+        for i in reversed(range(len(c['reads']))):
+            yield dict(c, reads=c['reads'][:i] + c['reads'][i + 1:])
     if 'subs' in c and len(c['subs']) > 1:
         for i in range(len(c['subs'])):
             yield dict(c, subs=[c['subs'][i]])
